@@ -216,6 +216,7 @@ CONSTANTS
   Metric = "{metric}"
   Cap = {cap}
   ImplVariant = "{variant}"
+  MaxCrashes = {crashes}
 INVARIANT HistCoherent
 INVARIANT CurCoherent
 INVARIANT HistBetaMonotone
@@ -228,6 +229,7 @@ INVARIANT NoInfActive
 INVARIANT PostDone
 INVARIANT NoStuck
 INVARIANT NoClauseFails
+INVARIANT ResumeExact
 PROPERTY BetaMonotoneStep
 PROPERTY AppendOnlyStep
 CHECK_DEADLOCK FALSE
@@ -236,19 +238,19 @@ CHECK_DEADLOCK FALSE
 WITNESS_CFG = MC_CFG.replace("INVARIANT NoClauseFails", "INVARIANT NoClauseFails\nINVARIANT {witness}")
 
 
-def model_part(ck, pid, variants=(), tier="quick", configs=None):
+def model_part(ck, pid, variants=(), tier="quick", configs=None, crashes=0, maxiter=None):
     """TLC on MC_PSRun: the intended model must satisfy every invariant (all actions covered, `done`
     reachable); each code-shaped variant relevant to the property must be refuted."""
     from . import tlc
 
-    maxiter = 3 if tier == "quick" else 4
+    maxiter = maxiter or (3 if tier == "quick" else 4)
     configs = configs or [dict(clustering="TRUE", every=2, metric="ess", cap=0)]
     if tier == "thorough":
         configs = configs + [dict(clustering="FALSE", every=1, metric="ess", cap=0), dict(clustering="TRUE", every=3, metric="vv", cap=1)]
     states = trans = 0
     cover = {}
     for c in configs:
-        res = tlc.run_tlc("MC_PSRun", MC_CFG.format(maxiter=maxiter, variant="none", **c), coverage=True)
+        res = tlc.run_tlc("MC_PSRun", MC_CFG.format(maxiter=maxiter, variant="none", crashes=crashes, **c), coverage=True)
         states += res.distinct
         trans += res.generated
         if res.status != "ok":
@@ -261,13 +263,13 @@ def model_part(ck, pid, variants=(), tier="quick", configs=None):
     if missing:
         raise tlc.TLCFailure(f"vacuous model: actions never taken: {missing} (coverage {cover})")
     # reachability witness: `done` must be reachable (NeverDone must be violated)
-    res = tlc.run_tlc("MC_PSRun", WITNESS_CFG.format(maxiter=maxiter, variant="none", witness="NeverDone", **configs[0]))
+    res = tlc.run_tlc("MC_PSRun", WITNESS_CFG.format(maxiter=maxiter, variant="none", witness="NeverDone", crashes=crashes, **configs[0]))
     if res.status != "violation" or res.violated != "NeverDone":
         raise tlc.TLCFailure("vacuous model: pc = done unreachable")
     res.cleanup()
     refuted = {}
     for v in variants:
-        res = tlc.run_tlc("MC_PSRun", MC_CFG.format(maxiter=maxiter, variant=v, **configs[0]))
+        res = tlc.run_tlc("MC_PSRun", MC_CFG.format(maxiter=maxiter, variant=v, crashes=(1 if v in ("loadnothing", "unfitted") else crashes), **configs[0]))
         refuted[v] = res.violated if res.status == "violation" else None
         if res.status != "violation":
             raise tlc.TLCFailure(f"code-shaped variant {v} not refuted by the model (vacuous invariants)")
